@@ -31,6 +31,8 @@ CLAIMS = {
             "Timeout grid x precedence; armed timerfd value compared with floor(t*1e9); clock stepped to deadline-1ns / deadline; expiry raced against reply / caller and owner FIN/RST inside one harvested batch in both orders on batch sizes 1,2,10,64.", "4 C14"),
     "C20": ("fault_enumeration", "crash-point / short-write / error enumeration on intercepted file-system calls with fresh-loader probes; authorisation matrix on the daemon",
             "Every crash point before/after each mutating file-system call of a password change, sampled short-write counts and ENOSPC/EIO/EINTR per call; each on-disk snapshot probed by a fresh process with the real loader (old set or new set, never neither); daemon-level authorisation matrix over user kinds.", "4 C20"),
+    "C15": ("fault_enumeration", "single-fault enumeration over every allocation of a scripted corpus (countdown failure injection in the allocation tap) with sanitizers, ledger, victim attribution and post-fault probe",
+            "For each of 7 scripted sessions every allocation index fails in turn (exhaustive in thorough, every 2nd in quick), plus multi-fault runs and histories under a reduced heap cap; ASan/UBSan/LSan, at most one response per request, only the victim connection may be dropped, a fresh connection is served afterwards, accounting returns to the baseline.", "4 C15"),
     "C16": ("exploration", "reference matcher vs get/fetch results of the real daemon over an adversarial operand alphabet (runtime monitoring)",
             "All single matchers x 41 operands x 3 option settings x 40 paths exhaustively, random multi-matcher rules, ill-formed rules and repeated option keys; results of the real daemon compared with an independent Python matcher.", "4 C16"),
     "C18": ("exploration", "differential monitoring of the real validator against an independent RFC 3629 DFA (product exploration, word sweeps)",
